@@ -162,3 +162,20 @@ Definition ok_fk_plan : list action :=
 Lemma ok_fk_holds :
   judged [] ok_fk_plan = true /\ migration_ok [] ok_fk_plan = true /\ in_known_class [] ok_fk_plan = false.
 Proof. vm_compute. repeat split; reflexivity. Qed.
+
+Definition w_refname :=
+  ([T_user; mkTable "post" None [pcol "pk" (TSimple Integer) false; pcol "id" (TSimple Integer) true; pcol "user_id" (TSimple Integer) true]
+                    [CPrimaryKey false ["pk"]; FK_post_user]],
+   [DeleteColumn "post" "id"]).
+Lemma w_refname_refutes : refutes (fst w_refname) (snd w_refname) known_C04_fk_lost_by_ref_name.
+Proof. vm_compute. repeat split; reflexivity. Qed.
+
+Definition w_reflater :=
+  ([T_user],
+   [CreateTable "post" [pcol "id" (TSimple Integer) false; pcol "user_pk" (TSimple Integer) true]
+                [CPrimaryKey false ["id"]; CForeignKey None ["user_pk"] "user" ["pk"] None None];
+    AddColumn "user" (pcol "pk" (TSimple Integer) false) (Some "0");
+    AddConstraint "user" (CUnique None ["pk"])]).
+Lemma w_reflater_refutes : refutes (fst w_reflater) (snd w_reflater) known_C04_reference_added_later
+  /\ migration_error (fst w_reflater) (snd w_reflater) = Some "M10e referenced column does not exist (3734)".
+Proof. vm_compute. repeat split; reflexivity. Qed.
